@@ -26,6 +26,8 @@ def shard_main(pid, spec_path, out_path):
     R.budget_s = spec.get("budget_s")
     if getattr(mod, "NEEDS_REPO", True):
         H.assert_repo_import()
+    from . import smooth as S
+    S.MONITOR.update(R=R, pid=pid)
     try:
         mod.run_shard(spec, R)
     except Exception:
@@ -42,7 +44,19 @@ def replay_main(pid, path):
     doc = json.loads(Path(path).read_text())
     case = doc["case"]
     R = H.Recorder()
-    mod.replay(H.unjson(case), R)
+    from . import smooth as S
+    S.MONITOR.update(R=R, pid=pid)
+    if isinstance(case, dict) and "shard_spec" in case:
+        # witness of a shard that died on a fatal signal: the whole shard is run again in its own process
+        dumps, problems = H.run_shards(pid, [case["shard_spec"]], getattr(mod, "HARD_TIMEOUT_S", {}).get("thorough", 3600))
+        agg = H.merge(dumps)
+        R.evaluations = agg["evaluations"]
+        R.violations = agg["violations"]
+        for pr in problems:
+            if not any(v["key"].endswith(":fatal-signal") for v in agg["violations"]):
+                R.inconclusive_because(pr)
+    else:
+        mod.replay(H.unjson(case), R)
     known = H.load_known()
     bad = False
     for v in R.violations:
